@@ -139,7 +139,15 @@ def hyd_case(inp):
     g = smiles_to_graph(s, use_index_as_atom_map=True)
     ids = sorted(g.nodes())
     before = chem.graph_abs(g, ids)
-    e = h_to_explicit(g)
+    partial = bool(inp.get("partial"))
+    if partial:      # hydrogens made explicit on some atoms only: a graph that mixes both representations
+        rng = random.Random(inp["smiles"])
+        some = [v for v in ids if rng.random() < 0.6] or ids[:1]
+        # ... and on some of those only part of the hydrogens: one atom then carries implicit and explicit hydrogens at once
+        keep = {v: rng.randint(1, int(g.nodes[v].get("hcount", 0))) for v in some if int(g.nodes[v].get("hcount", 0) or 0) >= 2 and rng.random() < 0.6}
+        e = h_to_explicit(g, some, keep=keep)
+    else:
+        e = h_to_explicit(g)
     i2 = h_to_implicit(e)
     if chem.graph_abs(g, ids) != before:
         raise AssertionError("h_to_explicit modified its input")
@@ -148,7 +156,7 @@ def hyd_case(inp):
     I2 = chem.graph_abs(i2, allids)
     if any(v not in set(allids) for v in i2.nodes()):
         I2["present"] = [0] * len(allids)
-    return {"kind": "hyd", "B0": chem.graph_abs(g, allids), "E": chem.graph_abs(e, allids), "I2": I2}
+    return {"kind": "hyd", "partial": partial, "B0": chem.graph_abs(g, allids), "E": chem.graph_abs(e, allids), "I2": I2}
 
 
 def gml_case(inp):
@@ -236,7 +244,7 @@ def run(ctx: core.Ctx) -> None:
     if q:
         ms = ms[:60] + rng.sample(ms[60:], min(len(ms) - 60, 240))
     core.run_stage(ctx, S("molecules-smiles-graph-smiles", mol_case, [{"smiles": s} for s in ms]))
-    core.run_stage(ctx, S("molecules-explicit-implicit-H", hyd_case, [{"smiles": s} for s in ms]))
+    core.run_stage(ctx, S("molecules-explicit-implicit-H", hyd_case, [{"smiles": s} for s in ms] + [{"smiles": s, "partial": True} for s in ms]))
     rx = []
     for r in chem.corpus():
         for how, s in chem.rewrites(r["rsmi"], rng, 1 if q else 6):
